@@ -380,42 +380,76 @@ str_image("")
 
 class Decoder:
     """model -> python values; string-kinded reals are mapped back to strings such that all order
-    and equality relations among them and the lifted constants are preserved"""
+    and equality relations among them and the lifted constants are preserved.  Two passes: a
+    collecting pass records every string value that will be needed, then `plan_strings` assigns all of
+    them at once (assigning one at a time can squeeze later values into gaps with no string left)"""
 
-    def __init__(self, model):
+    def __init__(self, model, collecting=False, plan=None):
         self.model = model
+        self.collecting = collecting
+        self.seen = set()
         self.assigned = dict(STR_CONSTS)       # Fraction -> str
+        if plan:
+            self.assigned.update(plan)
         self.counter = 0
 
     def num(self, term):
         return model_value(self.model, term)
 
     def string(self, term):
-        v = model_value(self.model, term)
-        v = Fraction(v)
+        v = Fraction(model_value(self.model, term))
+        if self.collecting:
+            self.seen.add(v)
+            return self.assigned.get(v, "?")
         if v in self.assigned:
             return self.assigned[v]
-        keys = sorted(self.assigned)
-        import bisect
+        one = plan_strings({v}, self.assigned)
+        self.assigned.update(one)
+        return self.assigned[v]
+
+
+def plan_strings(values, assigned=None):
+    """{Fraction: str} for every value that is not a lifted constant: per gap between two neighbouring
+    known strings the needed values get increasing readable names"""
+    import bisect
+    known = dict(STR_CONSTS if assigned is None else assigned)
+    todo = sorted(v for v in set(values) if v not in known)
+    keys = sorted(known)
+    out = {}
+    gaps = {}
+    for v in todo:
         i = bisect.bisect_left(keys, v)
-        lo = self.assigned[keys[i - 1]] if i > 0 else None
-        hi = self.assigned[keys[i]] if i < len(keys) else None
-        if lo is None:
+        if i == 0:
             raise Inconclusive("model places a string below the empty string")
-        # prefer readable values: try a few pretty candidates that fit between the neighbours
-        cand = None
-        for k in range(self.counter, self.counter + 40):
-            c = lo + "%s%d" % ("-" if lo else "v", k)
-            if c > lo and (hi is None or c < hi):
-                cand = c
-                self.counter = k + 1
-                break
-        if cand is None:
-            cand = str_between(lo, hi)
-        if cand is None:
-            raise Inconclusive("model needs a string strictly between %r and %r" % (lo, hi))
-        self.assigned[v] = cand
-        return cand
+        gaps.setdefault(i, []).append(v)
+    for i, vs in gaps.items():
+        lo = known[keys[i - 1]]
+        hi = known[keys[i]] if i < len(keys) else None
+        k = len(vs)
+        width = max(1, len(str(k)))
+        cands = [lo + ("-" if lo else "v") + str(n).zfill(width) for n in range(k)]
+        ok = all(c > lo and (hi is None or c < hi) for c in cands) and cands == sorted(cands) and len(set(cands)) == k
+        if not ok:
+            # squeeze from above: v_k < hi, v_{k-1} < v_k, ...
+            cands = []
+            top = hi
+            for _ in range(k):
+                c = str_between(lo, top)
+                if c is None:
+                    raise Inconclusive("model needs %d strings strictly between %r and %r" % (k, lo, hi))
+                cands.append(c)
+                top = c
+            cands.reverse()
+        for v, c in zip(vs, cands):
+            out[v] = c
+    return out
+
+
+def two_pass(model, fn):
+    """run fn(decoder) twice: once collecting the string values it needs, once with a consistent plan"""
+    d0 = Decoder(model, collecting=True)
+    fn(d0)
+    return fn(Decoder(model, plan=plan_strings(d0.seen)))
 
 
 MARK = "\ufff0SYM\ufff0"     # content of a formatted proxy: fine in log lines, never allowed as data
@@ -632,6 +666,36 @@ class SNum:
         if z3.is_int(a):
             a, b = z3.ToReal(a), z3.ToReal(b)
         return SNum(a / b)
+
+    def __mod__(self, o):
+        # Python's a % b for b > 0:  a - b * floor(a / b)
+        return self - (self // o) * o
+
+    def __rmod__(self, o):
+        a, b = self._pair(o)
+        return SNum(b) % self
+
+    def __round__(self, *a):
+        raise Unsupported("round() of a symbolic number")
+
+    def __trunc__(self):
+        raise Unsupported("trunc() of a symbolic number")
+
+    def __floor__(self):
+        raise Unsupported("floor() of a symbolic number")
+
+    def __ceil__(self):
+        raise Unsupported("ceil() of a symbolic number")
+
+    def __abs__(self):
+        return SNum(z3.If(self.z >= 0, self.z, -self.z))
+
+    def __pow__(self, o):
+        raise Unsupported("power of a symbolic number")
+
+    def __divmod__(self, o):
+        q = self // o
+        return q, self - q * o
 
     def __bool__(self):
         return E().decide(self.z != 0)
